@@ -188,18 +188,20 @@ def find_tagged(text: str, tag: str):
     Works by bracket matching from each occurrence of the opening, so output of
     several workers interleaved at line granularity is still parsed.
     """
-    needle = '<<"' + tag + '"'
+    import re
+    pat = re.compile(r'<<\s*"' + re.escape(tag) + '"')
     pos = 0
     while True:
-        k = text.find(needle, pos)
-        if k < 0:
+        m = pat.search(text, pos)
+        if not m:
             return
+        k = m.start()
         try:
             v, end = parse_prefix(text, k)
             yield v
             pos = end
         except (ValueError, IndexError):
-            pos = k + len(needle)
+            pos = m.end()
 
 
 def parse_state(block: str) -> dict:
